@@ -83,7 +83,7 @@ pub fn regex_tokinizer(tokinizer: &mut Tokinizer) {
 }
 
 pub fn language_tokinizer(tokinizer: &mut Tokinizer) {
-    let lowercase_data = tokinizer.data.to_lowercase();
+    let lowercase_data = crate::tools::change_case_keep_positions(&tokinizer.data, false);
 
     /* Everything after the first '#' is comment, language based tokens must not be searched in it */
     let code_data = match lowercase_data.find('#') {
